@@ -53,6 +53,7 @@ def run(ctx):
         adts = {M.consumers[n]["adt"] for n in ("TryForEachConsumer", "ResultVecConsumer") if n in M.consumers}
         with ctx.renamed({"C02.OWN": "C14.OWN"}):
             c02.rule_own(ctx, M, only=lambda cp: cp in adts)
+        c13.rule_group_container(ctx, M, "C14.OWN", ("TryForEachConsumer", "ResultVecConsumer"))
         ctx.floor("C14.BRANCH", cfg, 3)
         ctx.floor("C14.FLUSH", cfg, 1)
         ctx.floor("C14.STOP", cfg, 3)
